@@ -213,13 +213,16 @@ def gen_chain(rng, ns, nu, max_len, max_depth, allow, st=False, inp=False):
     return out, d
 
 
-def gen_layout(rng, w, short_prob=0.0, max_eps=4, extra=5):
+def gen_layout(rng, w, short_prob=0.0, max_eps=4, extra=5, many=None):
     """Episode layout: list of (label, length) plus an arrangement of rows."""
     n_eps = int(rng.integers(1, max_eps + 1))
     pool = [0, 1, 2, 3, 4, 5, 7, 9, 12]
     if rng.random() < 0.2:
         # large, adjacent labels (run ids): float comparison of labels must stay exact
         pool = [100000, 100001, 100002, 250000, 250001, 3000000, 3000001]
+    if (max_eps >= 3 and rng.random() < 0.07) if many is None else many:
+        # a log with many short episodes (more than any size threshold a fast path is likely to use)
+        n_eps = int(rng.integers(17, 24)); pool = list(range(0, 30)); extra = min(extra, 1)
     labels = [int(x) for x in rng.choice(pool, size=n_eps, replace=False)]
     lens = []
     for _ in labels:
